@@ -12,6 +12,8 @@ def mix(ctx, n_generic, n_susp, n_over, n_oom, n_par, laws=("const",), bias=None
             yield gen_e.gen_suspension(s + 100000 + i, drv)
         for i in range(n_over):
             yield gen_e.gen_oversell(s + 200000 + i, drv)
+        for i in range(n_over // 3):
+            yield gen_e.gen_suspend_oversell(s + 250000 + i, drv)
         for i in range(n_oom):
             yield gen_e.gen_oom(s + 300000 + i, drv, over=oom_over if i % 4 else False)
         for i in range(n_par):
